@@ -125,7 +125,7 @@ HandleLaw(M, req) ==
 (* ====================================================================================== *)
 \* a text: [ref, ver, lang, width, lines]; a filter: five sequences, <<>> = constraint not given
 Refs == {"r1", "r2"}
-Vers == {1, 2}
+Vers == {0, 1}   \* 0 is a legal pm:ReferencedVersion: a request for version 0 is a version constraint, not "no version"
 Langs == {"en", "de"}
 Widths == {"xs", "s", "l"}
 LineCounts == {1, 2}
@@ -150,11 +150,11 @@ LatestPerRef(S) == {t \in S : \A u \in S : u.ref = t.ref => u.ver <= t.ver}
 Languages(S) == {t.lang : t \in S}
 
 (* ---- stored text sets: (ref, version) pattern x languages x (width, lines) pattern, and a few ragged ones *)
-RVPat(n) == CASE n = "a1" -> {<<"r1", 1>>}
-              [] n = "a2" -> {<<"r1", 2>>}
-              [] n = "a12" -> {<<"r1", 1>>, <<"r1", 2>>}
-              [] n = "ab1" -> {<<"r1", 1>>, <<"r2", 1>>}
-              [] n = "rag" -> {<<"r1", 1>>, <<"r1", 2>>, <<"r2", 1>>}
+RVPat(n) == CASE n = "a1" -> {<<"r1", 0>>}
+              [] n = "a2" -> {<<"r1", 1>>}
+              [] n = "a12" -> {<<"r1", 0>>, <<"r1", 1>>}
+              [] n = "ab1" -> {<<"r1", 0>>, <<"r2", 0>>}
+              [] n = "rag" -> {<<"r1", 0>>, <<"r1", 1>>, <<"r2", 0>>}
               [] n = "full" -> Refs \X Vers
 LGPat(n) == CASE n = "en" -> {"en"} [] n = "both" -> {"en", "de"}
 WLPat(n) == CASE n = "x1" -> {<<"xs", 1>>}
@@ -167,13 +167,13 @@ WLPat(n) == CASE n = "x1" -> {<<"xs", 1>>}
 T(r, v, g, w, n) == [ref |-> r, ver |-> v, lang |-> g, width |-> w, lines |-> n]
 Special(n) == CASE n = "empty" -> {}
                 \* the two languages offer different widths
-                [] n = "raglang" -> {T("r1", 1, "en", "xs", 1), T("r1", 1, "en", "l", 2), T("r1", 1, "de", "s", 1)}
+                [] n = "raglang" -> {T("r1", 0, "en", "xs", 1), T("r1", 0, "en", "l", 2), T("r1", 0, "de", "s", 1)}
                 \* the two references offer different widths / lines, and different latest versions
-                [] n = "ragref" -> {T("r1", 1, "en", "xs", 1), T("r1", 2, "en", "l", 2), T("r2", 1, "en", "s", 2),
-                                    T("r2", 1, "de", "s", 1)}
+                [] n = "ragref" -> {T("r1", 0, "en", "xs", 1), T("r1", 1, "en", "l", 2), T("r2", 0, "en", "s", 2),
+                                    T("r2", 0, "de", "s", 1)}
                 \* only one language has the latest version
-                [] n = "ragver" -> {T("r1", 1, "en", "s", 1), T("r1", 2, "en", "s", 1), T("r1", 1, "de", "s", 1),
-                                    T("r2", 2, "de", "l", 2)}
+                [] n = "ragver" -> {T("r1", 0, "en", "s", 1), T("r1", 1, "en", "s", 1), T("r1", 0, "de", "s", 1),
+                                    T("r2", 1, "de", "l", 2)}
 StoreOf(p) == IF p.rv = "x" THEN Special(p.lg)
               ELSE {T(rv[1], rv[2], g, wl[1], wl[2]) : rv \in RVPat(p.rv), g \in LGPat(p.lg), wl \in WLPat(p.wl)}
 
@@ -188,12 +188,12 @@ QuickStoreIds == [rv : {"rag", "full"}, lg : {"both"}, wl : {"x2l1", "all"}]
                    \cup [rv : {"x"}, lg : {"empty", "ragref", "ragver"}, wl : {"-"}]
 
 AllFRefs == {<<>>, <<"r1">>, <<"r1", "r2">>, <<"rx">>, <<"rx", "r1">>}
-AllFVers == {<<>>, <<1>>, <<2>>, <<3>>}
+AllFVers == {<<>>, <<0>>, <<1>>, <<2>>}
 AllFLangs == {<<>>, <<"de">>, <<"en", "de">>, <<"xx">>}
 AllFWidths == {<<>>, <<"xs">>, <<"s">>, <<"m">>, <<"l">>, <<"xs", "l">>}
 AllFLines == {<<>>, <<1>>, <<2>>, <<1, 2>>}
 QuickFRefs == {<<>>, <<"r1">>, <<"r1", "r2">>, <<"rx">>}
-QuickFVers == {<<>>, <<1>>, <<2>>}
+QuickFVers == {<<>>, <<0>>, <<1>>}
 QuickFLangs == {<<>>, <<"de">>, <<"en", "de">>, <<"xx">>}
 QuickFWidths == {<<>>, <<"xs">>, <<"m">>, <<"xs", "l">>}
 QuickFLines == {<<>>, <<1>>, <<1, 2>>}
@@ -227,7 +227,7 @@ TextLaw(S, f) ==
   \* a constraint naming only values that occur nowhere admits nothing
   /\ f.ref = <<"rx">> => Matching(S, f) = {}
   /\ f.lang = <<"xx">> => Matching(S, f) = {}
-  /\ f.ver = <<3>> => Matching(S, f) = {}
+  /\ f.ver = <<2>> => Matching(S, f) = {}
   /\ NoConstraint(f) = (f = NoFilter)
 
 (* ====================================================================================== *)
